@@ -40,6 +40,12 @@ func (ex *Exec) binop(s *State, op token.Token, xt types.Type, a, b Value, yt ty
 		}
 		unsupported("string binop %v", op)
 	}
+	if pa, ok := a.(Ptr); ok {
+		// uintptr(p) ^ 0 (noescape idiom) and similar identities
+		if yb, ok := b.(*Term); ok && yb.IsConst() && yb.Val.Sign() == 0 && (op == token.XOR || op == token.OR || op == token.ADD || op == token.SUB) {
+			return pa, true
+		}
+	}
 	x, ok1 := a.(*Term)
 	y, ok2 := b.(*Term)
 	if !ok1 || !ok2 {
@@ -459,7 +465,8 @@ func (ex *Exec) convert(s *State, v Value, from, to types.Type, pend *pending) (
 			}
 			return tt.BV(math.Float64bits(float64(t.S64())), 64), true
 		}
-		unsupported("symbolic int to float")
+		// uninterpreted (consistent per argument): only metrics consume such values
+		return tt.UF(fmt.Sprintf("int2float_%d_%d", fw, tw), tw, t), true
 	}
 	if tw == fw {
 		return t, true
